@@ -218,6 +218,42 @@ func ruleC17N2(r *Run) {
 		}
 	})
 	r.Check(name+" rejects", errs >= 4, p.pos(v.Pos()), name, fmt.Sprintf("%d error returns (unknown encoding, unknown type, level, window bits)", errs))
+	// the range tests are made whether or not the compression type is named: CompressConfig switches compression on
+	// for every level other than 0, so a level or window outside its range must be refused on every path — each bound
+	// test is reachable from the entry without passing a comparison of the Compress field
+	{
+		isTypeCompare := func(x ssa.Instruction) bool {
+			bo, ok := x.(*ssa.BinOp)
+			if !ok || (bo.Op != token.EQL && bo.Op != token.NEQ) {
+				return false
+			}
+			return hasLeaf(p.Leaves(bo.X, provOpts{}), "field:/transport.NegotiationParams.Compress") || hasLeaf(p.Leaves(bo.Y, provOpts{}), "field:/transport.NegotiationParams.Compress")
+		}
+		for _, f := range []string{"CompressLevel", "CompressWindowBits"} {
+			n, free := 0, 0
+			allInstrsDeep(p, v, func(ins ssa.Instruction) {
+				bo, ok := ins.(*ssa.BinOp)
+				if !ok || (bo.Op != token.LSS && bo.Op != token.GTR && bo.Op != token.LEQ && bo.Op != token.GEQ) {
+					return
+				}
+				if !hasLeaf(p.Leaves(bo.X, provOpts{}), "field:/transport.NegotiationParams."+f) {
+					return
+				}
+				n++
+				if ins.Parent() == v && reachesFromEntryWithout(v, func(x ssa.Instruction) bool { return x == ins }, isTypeCompare) != nil {
+					free++
+				} else if ins.Parent() != v {
+					// in a helper: judged by the helper's call
+					for _, site := range p.staticCallSites(ins.Parent()) {
+						if site.Parent() == v && reachesFromEntryWithout(v, func(x ssa.Instruction) bool { return x == site }, isTypeCompare) != nil {
+							free++
+						}
+					}
+				}
+			})
+			r.Check(name+" "+f+" range tested for every compression type", n > 0 && free == n, p.pos(v.Pos()), name, fmt.Sprintf("%d bound test(s) of %s, %d of them made independently of the Compress field: a set that names no compression type but a level other than 0 is compressed all the same (CompressConfig), so its level and window must be range-checked too", n, f, free))
+		}
+	}
 }
 
 func ruleC17N3(r *Run) {
